@@ -22,6 +22,9 @@ class Engine(StmtMixin, EvalMixin, Interp):
         self._const_cache = {}
         self.attr_hooks = {}
         self.inline_only = set()
+        self.recursive_only = set()
+        self.concrete_mode = False
+        self.call_stack = []
         self.calls_seen = set()
         self.trusted_used = set()
         self.order_sensitive = []
@@ -154,7 +157,11 @@ class Engine(StmtMixin, EvalMixin, Interp):
                 lo, hi, st = args
             if not isinstance(st, int) or st <= 0:
                 raise Unsupported("range with symbolic or non-positive step")
-            n = sym_max(0, (_z(hi) - _z(lo) + (st - 1)) / st) if st != 1 else sym_max(0, _z(hi) - _z(lo))
+            n = interp.clamp0((_z(hi) - _z(lo) + (st - 1)) / st if st != 1 else _z(hi) - _z(lo))
+            if st == 1:
+                if isinstance(lo, int) and lo == 0:
+                    return LazySeq(n, lambda i: i, "range")
+                return LazySeq(n, lambda i, _lo=lo: _lo + i, "range")
             return LazySeq(n, lambda i, _lo=lo, _st=st: _lo + i * _st, "range")
 
         @reg("zip")
@@ -413,6 +420,16 @@ class Engine(StmtMixin, EvalMixin, Interp):
         X["itertools.zip_longest"] = self.ext_zip_longest
         X["warnings.warn"] = lambda interp, a, k: None
         X["functools.lru_cache"] = lambda interp, a, k: BuiltinFn("identity", lambda i2, a2, k2: a2[0])
+
+    def clamp0(self, expr):
+        """max(expr, 0); the plain expression when the path condition already implies expr >= 0 (keeps index terms
+        in the shape quantifier instantiation can match)."""
+        if isinstance(expr, int):
+            return max(expr, 0)
+        expr = z3.simplify(expr)
+        if self._check(expr < 0) == z3.unsat:
+            return expr
+        return sym_max(expr, 0)
 
     def isinstance1(self, v, t):
         if isinstance(t, ClassRef):
